@@ -68,7 +68,8 @@ def make_hook():
                 s.failures.append((f"a skipped/no-op call {op['k']} changed the file", "C09:noop-changed-file"))
             return
         inv = {v: "{" + str(k) + "}" for k, v in s.uids.map.items()}
-        line = s.lines[-1] if s.lines[-1].get("op") == "step" else None
+        new_lines = [l for l in s.lines[plen:] if l.get("op") == "step"]
+        line = new_lines[0] if new_lines else None
         if line is None:      # close + re-open: reachable nodes must be identical
             reach = {inv[u] for u in wsh.tree_uids(tree)}
             ch = {k for k in reach if pcur["nodes"].get(k) != cur["nodes"].get(k)}
@@ -80,11 +81,12 @@ def make_hook():
         before_u, after_u = set(wsh.tree_uids(ptree)), set(wsh.tree_uids(tree))
         fp = set()
         o = line.get("o")
-        for f in ("u", "parent", "obj"):
-            if f in line:
-                fp.add(line[f])
-        if o == "create":
-            fp.add(line["ent"]["uid"])
+        for l_ in new_lines:                          # one API call may be mirrored by several model steps
+            for f in ("u", "parent", "obj"):
+                if f in l_:
+                    fp.add(l_[f])
+            if l_.get("o") == "create":
+                fp.add(l_["ent"]["uid"])
         fp |= before_u ^ after_u                      # created / deleted
         structural = o in ("create", "move", "remove", "detach", "copy")
         par = set()
